@@ -370,7 +370,7 @@ func (t *tree) parseCallParams() []ast.Node {
 			// see if anything is left after running it through rawtext()
 			var text = rawtext(initial.val, true, true)
 			if len(text) != 0 {
-				t.unexpected(initial, "{call}, in between {param}'s (orphan content)")
+				t.unexpected(atTextStart(initial), "{call}, in between {param}'s (orphan content)")
 			}
 			initial = t.nextNonComment()
 		}
@@ -445,7 +445,7 @@ func (t *tree) parseSwitch(token item, end itemType) ast.Node {
 			if allSpace(tok.val) {
 				continue
 			}
-			t.unexpected(tok, "between switch cases")
+			t.unexpected(atTextStart(tok), "between switch cases")
 		case itemCase, itemDefault:
 			cases = append(cases, t.parseCase(tok))
 		case end:
@@ -609,7 +609,9 @@ func (t *tree) parseMsg(token item) ast.Node {
 		}
 	}
 	if hasPlural && len(node.Body.Children()) != 1 {
-		t.errorf("content not allowed outside plural tag")
+		// (found once the whole message has been read: report the {msg}, not the
+		// line of {/msg}.)
+		t.errorfAt(token.pos, "content not allowed outside plural tag")
 	}
 
 	t.expect(itemRightDelim, ctx)
@@ -1295,6 +1297,19 @@ func (t *tree) unexpected(token item, context string) {
 		t.errorf("lexical error: %v", token)
 	}
 	t.errorf("unexpected %v in %s", token, context)
+}
+
+// atTextStart returns the text token positioned at its first non-blank
+// character.  (A token's position is its end; a text token runs through the
+// line breaks and the indentation after the text.)
+func atTextStart(tok item) item {
+	var start = int(tok.pos) - len(tok.val)
+	for i := 0; i < len(tok.val); i++ {
+		if !isSpaceEOL(rune(tok.val[i])) {
+			return item{tok.typ, ast.Pos(start + i), tok.val}
+		}
+	}
+	return tok
 }
 
 // errorfAt is errorf for an error that belongs to a node already parsed: the
